@@ -320,3 +320,184 @@ class WFGen(F.Gen):
         # an unused local array and an unused scalar (remove_unused_vars)
         kernel['decls'] += [decl('zz', 'int', 'local', [(1, 3)]), decl('uu', 'int')]
         return prog
+
+
+# ----------------------------------------------------------------------------- the parsed program + registry
+class NotApplicable(Exception):
+    """The transformation does not apply to this input (documented / NotImplementedError): skipped and counted."""
+
+
+class Parsed:
+    def __init__(self, prog, text=None):
+        from loki import Sourcefile
+        self.prog = prog
+        self.text = text or F.render(prog)
+        self.sf = Sourcefile.from_source(self.text)
+        self.kmod = self.sf['kmod']
+        self.extra_sources = []        # stub modules etc. that precede kmod.f90 for gfortran
+        self.extra_units = []
+        for r in self.routines:
+            r.enrich(self.routines)
+
+    @property
+    def routines(self):
+        return list(self.kmod.subroutines)
+
+    @property
+    def kernel(self):
+        return self.kmod['kernel']
+
+    def units(self):
+        return [self.kmod] + list(self.extra_units)
+
+    def sources(self):
+        return list(self.extra_sources) + [('kmod.f90', self.sf.to_fortran())]
+
+
+def _has_raw(prog, start):
+    return any(s['s'] == 'raw' and s['text'].startswith(start) for u in prog['units'] for s in F._flat(u['body']))
+
+
+def _kinds(prog):
+    return {s['s'] for u in prog['units'] for s in F._flat(u['body'])}
+
+
+def _each(P, fn, **kw):
+    for r in P.routines:
+        fn(r, **kw)
+        for m in r.members:
+            pass
+
+
+def registry():
+    """[(name, fn(P))]: every entry applies one built-in transformation (with one option combination) to the
+    parsed kernel module in place; fn may raise NotApplicable."""
+    from loki.transformations.sanitise.associates import do_resolve_associates, do_merge_associates, AssociatesTransformation
+    from loki.transformations.sanitise import SanitiseTransformation, do_resolve_sequence_association, SubstituteExpressionTransformation
+    from loki.transformations.array_indexing import (
+        resolve_vector_notation, normalize_range_indexing, add_explicit_array_dimensions, remove_explicit_array_dimensions,
+        promote_variables, demote_variables)
+    from loki.transformations.transform_loop import do_loop_unroll, do_loop_fusion, do_loop_fission, TransformLoopsTransformation
+    from loki.transformations.constant_propagation import do_constant_propagation
+    from loki.transformations.remove_code import (
+        do_remove_dead_code, do_remove_unused_vars, do_remove_calls, RemoveCodeTransformation, do_remove_unused_dummy_args,
+        find_unused_dummy_args_and_vars)
+    from loki.transformations.inline import (
+        inline_internal_procedures, inline_marked_subroutines, inline_functions, inline_constant_parameters, InlineTransformation)
+    from loki.transformations.extract import outline_pragma_regions, extract_internal_procedures, ExtractTransformation
+    from loki.transformations.argument_shape import ArgumentArrayShapeAnalysis, ExplicitArgumentArrayShapeTransformation
+    from loki.transformations.build_system import DependencyTransformation, ModuleWrapTransformation
+    from loki.transformations.utilities import (
+        convert_to_lower_case, rename_variables, single_variable_declaration, replace_selected_kind, sanitise_imports)
+    from loki.transformations.idempotence import IdemTransformation
+    from loki.transformations.transform_region import region_hoist
+    from loki.transformations.routine_signatures import RemoveDuplicateArgs
+
+    def need(cond, why):
+        if not cond:
+            raise NotApplicable(why)
+
+    R = []
+
+    def reg(name):
+        def deco(fn):
+            R.append((name, fn))
+            return fn
+        return deco
+
+    # ---- associates
+    for nm, kw in (('resolve_associates', {}), ('resolve_associates:start_depth=1', {'start_depth': 1})):
+        reg(nm)(lambda P, kw=kw: (need('assoc' in _kinds(P.prog), 'no associate'), _each(P, do_resolve_associates, **kw)))
+    for nm, kw in (('merge_associates', {}), ('merge_associates:max_parents=1', {'max_parents': 1})):
+        reg(nm)(lambda P, kw=kw: (need('assoc' in _kinds(P.prog), 'no associate'), _each(P, do_merge_associates, **kw)))
+    reg('AssociatesTransformation:merge+resolve')(lambda P: (need('assoc' in _kinds(P.prog), 'no associate'), [
+        AssociatesTransformation(resolve_associates=True, merge_associates=True, start_depth=0).apply(r, role='kernel') for r in P.routines]))
+    # ---- array notation
+    reg('resolve_vector_notation')(lambda P: _each(P, resolve_vector_notation))
+    reg('normalize_range_indexing')(lambda P: _each(P, normalize_range_indexing))
+    reg('add_explicit_array_dimensions')(lambda P: _each(P, add_explicit_array_dimensions))
+    reg('remove_explicit_array_dimensions')(lambda P: _each(P, remove_explicit_array_dimensions))
+    reg('promote_variables')(lambda P: promote_variables(P.kernel, ['t1'], pos=0, index=P.kernel.variable_map['m'], size=P.kernel.variable_map['n']))
+    reg('demote_variables')(lambda P: demote_variables(P.kernel, ['zz'], ['3']))
+    # ---- loops
+    reg('loop_unroll')(lambda P: (need(_has_raw(P.prog, '!$loki loop-unroll'), 'no pragma'), do_loop_unroll(P.kernel, warn_iterations_length=False)))
+    reg('loop_fusion')(lambda P: (need(_has_raw(P.prog, '!$loki loop-fusion'), 'no pragma'), do_loop_fusion(P.kernel)))
+    reg('loop_fission')(lambda P: (need(_has_raw(P.prog, '!$loki loop-fission'), 'no pragma'), do_loop_fission(P.kernel)))
+    reg('TransformLoopsTransformation:all')(lambda P: TransformLoopsTransformation(
+        loop_interchange=True, loop_fusion=True, loop_fission=True, loop_unroll=True).apply(P.kernel, role='kernel'))
+    # ---- constants / dead code / unused
+    reg('constant_propagation')(lambda P: _each(P, do_constant_propagation))
+    reg('constant_propagation:unroll_loops')(lambda P: do_constant_propagation(P.kernel, unroll_loops=True))
+    reg('remove_dead_code')(lambda P: _each(P, do_remove_dead_code))
+    reg('remove_dead_code:use_simplify=False')(lambda P: _each(P, do_remove_dead_code, use_simplify=False))
+    reg('remove_unused_vars')(lambda P: _each(P, do_remove_unused_vars))
+    reg('remove_unused_vars:remove_only_arrays=False')(lambda P: _each(P, do_remove_unused_vars, remove_only_arrays=False))
+    reg('remove_calls:h2')(lambda P: (need('call' in _kinds(P.prog), 'no call'), do_remove_calls(P.kernel, call_names=('h2',))))
+    reg('RemoveCodeTransformation:dead+unused')(lambda P: [RemoveCodeTransformation(
+        remove_dead_code=True, remove_unused_vars=True, remove_unused_args=False, call_names=('h1',)).apply(r, role='kernel') for r in P.routines])
+    # ---- inlining
+    reg('inline_internal_procedures')(lambda P: inline_internal_procedures(P.kernel))
+    reg('inline_marked_subroutines')(lambda P: (need(_has_raw(P.prog, '!$loki inline'), 'no marked call'), inline_marked_subroutines(P.kernel)))
+    reg('inline_marked_subroutines:adjust_imports=False')(lambda P: (need(_has_raw(P.prog, '!$loki inline'), 'no marked call'),
+                                                                     inline_marked_subroutines(P.kernel, adjust_imports=False)))
+    reg('inline_functions')(lambda P: inline_functions(P.kernel, functions=tuple(r for r in P.routines if r.is_function)))
+    reg('inline_constant_parameters:external_only=False')(lambda P: inline_constant_parameters(P.kernel, external_only=False))
+    reg('InlineTransformation:all')(lambda P: InlineTransformation(
+        inline_constants=True, inline_elementals=True, inline_stmt_funcs=True, inline_internals=True, inline_marked=True,
+        remove_dead_code=True, external_only=False, resolve_sequence_association=True).apply(P.kernel, role='kernel'))
+    # ---- outlining / extraction
+    def place(P, new):
+        """The caller of the function-level API places the new routines: module CONTAINS + parent scope."""
+        for r in new:
+            P.kmod.contains.append(r)
+            r.parent = P.kmod
+    reg('outline_pragma_regions')(lambda P: (need(_has_raw(P.prog, '!$loki outline'), 'no region'),
+                                             place(P, outline_pragma_regions(P.kernel))))
+    reg('extract_internal_procedures')(lambda P: place(P, extract_internal_procedures(P.kernel)))
+    reg('ExtractTransformation:both')(lambda P: ExtractTransformation(extract_internals=True, outline_regions=True).apply(P.kmod, role='kernel'))
+    reg('ExtractTransformation:outline')(lambda P: (need(_has_raw(P.prog, '!$loki outline'), 'no region'),
+                                                    ExtractTransformation(extract_internals=False, outline_regions=True).apply(P.kmod, role='kernel')))
+    # ---- call signatures
+    reg('resolve_sequence_association')(lambda P: do_resolve_sequence_association(P.kernel))
+    reg('SanitiseTransformation:all')(lambda P: [SanitiseTransformation(
+        resolve_associate_mappings=True, resolve_sequence_association=True).apply(r, role='kernel') for r in P.routines])
+
+    def argshape(P):
+        for r in P.routines:
+            ArgumentArrayShapeAnalysis().apply(r, role='kernel', targets=[x.name for x in P.routines])
+        for r in P.routines:
+            ExplicitArgumentArrayShapeTransformation().apply(r, role='kernel', targets=[x.name for x in P.routines])
+    reg('ArgumentArrayShape')(argshape)
+    reg('RemoveDuplicateArgs')(lambda P: RemoveDuplicateArgs().apply(P.kernel, role='driver', targets=[x.name for x in P.routines]))
+
+    def unused_args(P):
+        for r in P.routines:
+            args, _ = find_unused_dummy_args_and_vars(r)
+            need(True, '')
+            if args:
+                do_remove_unused_dummy_args(r, args)
+    reg('remove_unused_dummy_args')(unused_args)
+    # ---- build system
+    reg('DependencyTransformation:module')(lambda P: DependencyTransformation(suffix='_x', module_suffix='_mod').apply(
+        P.sf, role='kernel', targets=[x.name for x in P.routines]))
+
+    def modwrap(P):
+        from loki import Sourcefile
+        text = '\n'.join(F.render_unit(next(u for u in P.prog['units'] if u['name'] == 'h2'), P.prog, 0)) + '\n'
+        sf = Sourcefile.from_source(text)
+        ModuleWrapTransformation(module_suffix='_mod').apply(sf, role='kernel', targets=[])
+        P.extra_units = list(sf.modules) + list(sf.subroutines)
+        P.extra_sources = [('h2_mod.f90', sf.to_fortran())]
+    reg('ModuleWrapTransformation')(modwrap)
+    # ---- utilities
+    reg('convert_to_lower_case')(lambda P: _each(P, convert_to_lower_case))
+    reg('rename_variables')(lambda P: rename_variables(P.kernel, symbol_map={'t1': 'tone', 'ia': 'iarr', 'm': 'mm'}))
+    reg('single_variable_declaration')(lambda P: _each(P, single_variable_declaration))
+    reg('single_variable_declaration:group_by_shape')(lambda P: _each(P, single_variable_declaration, group_by_shape=True))
+    reg('replace_selected_kind')(lambda P: _each(P, replace_selected_kind))
+    reg('sanitise_imports')(lambda P: _each(P, sanitise_imports))
+    reg('IdemTransformation')(lambda P: IdemTransformation().apply(P.sf, role='kernel'))
+    reg('SubstituteExpressionTransformation')(lambda P: SubstituteExpressionTransformation(
+        substitute_expressions=True, expression_map={'m': 'm + 0', 'n': '(n)'}, substitute_spec=False).apply(P.kernel, role='kernel'))
+    reg('region_hoist')(lambda P: (need(_has_raw(P.prog, '!$loki region-hoist'), 'no pragma'), region_hoist(P.kernel)))
+    return R
